@@ -189,6 +189,46 @@ func runC13(c *Ctx) {
 		r.Check("R13.1", FuncName(reg), "register(unknown time) is refused with an error", reg.Pos(), why == "" && !out.accepted, why)
 	}
 
+	// ---- R13.6 registration never appends into spare capacity of a list that copies of a cell may share
+	r.Rule("R13.6", "callback lists, which by-value copies of a cell share, are extended by copy, never in place")
+	{
+		p := c.Idx().proverFor(reg)
+		napp := 0
+		eachInstr(reg, func(in ssa.Instruction) {
+			st, ok := in.(*ssa.Store)
+			if !ok {
+				return
+			}
+			call, isApp := isBuiltinCall(st.Val, "append")
+			if !isApp {
+				return
+			}
+			sl, isSl := st.Val.Type().Underlying().(*types.Slice)
+			if !isSl || !isNamed(sl.Elem(), modPath, "PropertyCallback") {
+				return
+			}
+			napp++
+			arg0 := call.Call.Args[0]
+			okc, why := false, "the new callback is appended into the list's spare capacity, which other copies of the same cell share"
+			if s3, is3 := arg0.(*ssa.Slice); is3 && s3.Max != nil {
+				hi := p.lenOf(s3.X)
+				if s3.High != nil {
+					hi = p.linOf(s3.High)
+				}
+				if p.linOf(s3.Max).String() == hi.String() && s3.Low == nil {
+					okc, why = true, ""
+				}
+			}
+			if p.lenOf(arg0).String() == "0" {
+				if _, isConst := arg0.(*ssa.Const); isConst {
+					okc, why = true, ""
+				}
+			}
+			r.Check("R13.6", FuncName(reg), "append to a callback list starts from a capacity-clamped slice (forces a private copy)", in.Pos(), okc, why)
+		})
+		r.Floor("R13.6", "appends to callback lists", napp, 1)
+	}
+
 	// ---- R13.2 invoker's mapping
 	{
 		setP, tP := invoke.Params[0], invoke.Params[1]
@@ -365,13 +405,19 @@ func runC13(c *Ctx) {
 			}
 			if !blockReach(other, nil)[s.in.Block()] {
 				leavesOnly := true
+				reports := false
 				for ob := range blockReach(other, nil) {
 					for _, oin := range ob.Instrs {
 						if staticCallee(oin) == invoke {
 							leavesOnly = false
 						}
+						if f := staticCallee(oin); f != nil && f.Name() == "AddError" {
+							reports = true
+						}
 					}
 				}
+				// only a refusal that is reported as an error counts; a silent early return skips targets
+				leavesOnly = leavesOnly && reports
 				if leavesOnly {
 					continue
 				}
@@ -450,6 +496,7 @@ func runC13(c *Ctx) {
 // symRegister executes RegisterPropertyCallback symbolically for one (owner type, target, time).
 func symRegister(c *Ctx, reg *ssa.Function, owner types.Type, target, when int64) (regOutcome, string) {
 	ownerP, whenP, targetP := reg.Params[1], reg.Params[2], reg.Params[3]
+	_ = fmt.Sprint
 	env := map[ssa.Value]absVal{
 		ownerP:        {kind: "type", t: owner},
 		whenP:         {kind: "int", k: when},
@@ -465,10 +512,31 @@ func symRegister(c *Ctx, reg *ssa.Function, owner types.Type, target, when int64
 		}
 		return false
 	})
-	if len(paths) != 1 {
-		return regOutcome{}, fmt.Sprintf("%d paths (expected the inputs to determine one)", len(paths))
+	if len(paths) == 0 {
+		return regOutcome{}, "no path to a return"
 	}
-	p := paths[0]
+	if len(paths) > 1 {
+		// branches the inputs do not decide (e.g. 'is the list still nil'): every such path must agree
+		var first regOutcome
+		for i, pp := range paths {
+			o, why := regOutcomeOf(c, reg, pp)
+			if why != "" {
+				return o, why
+			}
+			if i == 0 {
+				first = o
+			} else if o.accepted != first.accepted || o.selfCall != first.selfCall || o.setField != first.setField || o.listIdx != first.listIdx {
+				return o, fmt.Sprintf("%d paths with different outcomes for the same inputs", len(paths))
+			}
+		}
+		return first, ""
+	}
+	return regOutcomeOf(c, reg, paths[0])
+}
+
+// regOutcomeOf reads the outcome of one symbolic path through RegisterPropertyCallback.
+func regOutcomeOf(c *Ctx, reg *ssa.Function, p *symPath) (regOutcome, string) {
+	whenP, targetP := reg.Params[2], reg.Params[3]
 	res := results(p.ret)
 	errV := res[len(res)-1]
 	out := regOutcome{listIdx: -1}
